@@ -291,6 +291,25 @@ class Settings(MutableMapping):
     def __delitem__(self, key):
         del self._settings[key]
 
+    def update(self, *args, **kwargs):
+        """
+        Queue several new setting values at once. Every value is validated
+        before any of them is queued, so that a rejected update leaves nothing
+        behind.
+        """
+        new_settings = dict(*args, **kwargs)
+
+        for key, value in new_settings.items():
+            invalid = _validate_setting(key, value)
+            if invalid:
+                raise InvalidSettingsValueError(
+                    "Setting %d has invalid value %d" % (key, value),
+                    error_code=invalid
+                )
+
+        for key, value in new_settings.items():
+            self[key] = value
+
     def __iter__(self):
         return self._settings.__iter__()
 
